@@ -624,7 +624,9 @@ func VerifyLinkSignatureThesholds(layout Layout,
 		// Store all good links for a step
 		stepsMetadataVerified[step.Name] = linksPerStepVerified
 
-		if len(linksPerStepVerified) < step.Threshold {
+		// Whatever the threshold is, a step needs the evidence of at least one
+		// link, which the following verification routines rely on
+		if len(linksPerStepVerified) < step.Threshold || len(linksPerStepVerified) < 1 {
 			linksPerStep := stepsMetadata[step.Name]
 			return nil, fmt.Errorf("step '%s' requires '%d' link metadata file(s)."+
 				" '%d' out of '%d' available link(s) have a valid signature from an"+
